@@ -46,6 +46,7 @@ func c02Gen(t *rapid.T, r *h.Rec) execCase {
 	av, onEx, onCl := avoidOpts(r)
 	o := jsonOpts(av, onEx, onCl)
 	o.ContainerMembers = true
+	o.RecursiveUnions = true
 	o.NoIgnoreTag = false // gomacro:"ignore" is a TypeScript/Dart notion: encoding/json (and so the union routines) still carry the field
 	o.OtherFile = 4       // unions / members / element structs that are only reachable from the analysed file, not declared in it
 	return execCase{Spec: synth.GenTypes(t, o), Seed: int64(rapid.IntRange(1, 1<<30).Draw(t, "childSeed")), Checks: childChecks(25, 80)}
